@@ -30,6 +30,7 @@ for prop in sorted(DESCR):
         if r.returncode != 0:
             run('git apply --3way %s/%s.diff' % (src, m), cwd=wt); run('git reset -q', cwd=wt)
         diff = run('git diff', cwd=wt).stdout
+        assert '<<<<<<<' not in diff and '>>>>>>>' not in diff, ('conflict markers: regenerate by hand', prop, m)
         open(out + '/patch.diff', 'w').write(diff)
         run('git -C /repo worktree remove --force %s' % wt)
         assert diff.strip(), (prop, m)
